@@ -9,6 +9,11 @@ spec -> code
   gomatrixserverlib.KeyRing with scripted KeyDatabase / KeyFetchers (harness c12ring).
   KeyResponse.tla / KeyResponse_gen.tla: CheckKeys, ServerKeys.PublicKey and the real DirectKeyFetcher /
   PerspectiveKeyFetcher over a scripted KeyClient with really signed / mis-signed responses (c12resp).
+  The dup* modes add ONE response whose JSON text writes a top-level member twice (verify_keys /
+  old_verify_keys / server_name / valid_until_ts / signatures; the smuggled copy before or after the genuine
+  one; what it holds): the keys handed out - by CheckKeys, by the fetchers, and to a real KeyRing over them
+  that is asked to verify a message signed with the relay's key - must be those of the one reading the
+  signatures cover (KeyResponse.tla: Reading, OnlyWhatIsSigned); refusing such a response is allowed too.
 code -> spec
   c12rec runs seeded random batches (wider vocabulary) through a real KeyRing and logs the DBFetch / Fetch /
   Store calls at the real call boundaries; KeyRing_trace.tla replays the stages of KeyRing.tla along them.
@@ -141,6 +146,9 @@ def run(ctx):
         "the scripted database answers only for the names it is asked for",
         "which room versions demand strict checking is taken from MatrixBase.tla (Matrix specification: v5 and later, "
         "unstable identifiers by the base their MSC names), not from the library's table",
+        "a response that writes a top-level member twice may be read as its signatures read it (last copy), refused by "
+        "the checks, or fail to decode (the scripted client then behaves as fclient: error / entry left out); the "
+        "property statement does not choose between these, any of the three outcomes is accepted",
         "concrete spellings (server names incl. IP literals / names differing by a suffix, key IDs differing only in "
         "letter case or by a prefix) vary with seed mod 3; each run uses one variant",
     ]
@@ -148,7 +156,9 @@ def run(ctx):
     ctx.notes["rule"] = (
         "KeyRing_gen families single/twin/versions/pair/dberr: every scenario within the cfg bounds (requests x database entry per "
         "wanted key x per-key behaviour of up to two fetchers x timestamps x strict/lenient); family batch: seeded "
-        "TLC simulation, duplicates removed; KeyResponse_gen: every scenario of the four modes; trace: seeded random "
+        "TLC simulation, duplicates removed; KeyResponse_gen: every scenario of the four modes and of the four dup* modes (member written twice x before/after x "
+        "smuggled content x genuine response x way it arrives; layout and spelling of the smuggled copy vary with a hash of "
+        "seed and scenario); trace: seeded random "
         "batches. distinct = distinct (family, per-request result, must-class, observed call shape) classes")
     quick = ctx.tier == "quick"
     total = 0
